@@ -193,6 +193,11 @@ extern MPT_STRUCT(buffer) *_mpt_buffer_alloc(size_t len, int flags)
 	    && _mpt_buffer_alloc_align(0) < 0) {
 		return 0;
 	}
+	/* total size must be representable */
+	if (len > (SIZE_MAX - sizeof(*b) - _mpt_buffer_alloc_psize)) {
+		errno = ENOMEM;
+		return 0;
+	}
 	/* persistent type information */
 	len += sizeof(*b);
 	len = (((len - 1) / _mpt_buffer_alloc_psize) + 1) * _mpt_buffer_alloc_psize;
